@@ -230,6 +230,7 @@ func runC06(c *Ctx) {
 		cs.name = fmt.Sprintf("srv=%s/cli=%s/cs=%v/ss=%v/prefSrv=%v/auth=%s/ccert=%s%s/src=%s/tickets=%v/trust=%v/ver=%04x/%s", cs.srvMode, cs.cliKind, suiteNames(cs.cliSuites), suiteNames(cs.srvSuites), cs.preferSrv, authName(cs.auth), cs.cliCert, cs.stdCliCert, cs.certSrc, cs.tickets, cs.cliTrusts, cs.tlsVer, cs.stdCert)
 	}
 	runC06SNI(c)
+	runC06Deadlines(c, pki)
 	defer rep.Require("sessions_with_a_negotiated_application_protocol", 10)
 	rep.Count("cases", int64(len(cases)))
 	var smu sync.Mutex
@@ -527,6 +528,39 @@ func runC06Case(c *Ctx, pki *tlsPKI, cs c06Case, idx int, sample func(interface{
 				}
 			}
 			rep.Eval(fmt.Sprintf("second-connection/srv=%s/cli=%s/suite=%s/resumed=%v", cs.srvMode, cs.cliKind, suiteNames(cs.cliSuites), c2.DidResume))
+		}
+		// ---- a third connection that the policy forbids: the server configuration is tightened (a copy requiring a verified
+		// client certificate, same ticket keys) and the client — still holding the session and ticket of the connections
+		// before — now presents a certificate the server does not trust. Resumed or not, ticket offered or not: both sides
+		// must fail.
+		// (Only where the session held by the client was set up without a client certificate the tightened server could verify:
+		// a session that carries a certificate the server trusts resumes with that identity — the stored chain is verified at
+		// resumption — whatever certificate the client configuration names by now.)
+		if cs.cliKind == "gm" && (cs.srvMode == "gm" || cs.srvMode == "auto") && pki.other != nil && len(sst.VerifiedChains) == 0 && cs.cliCert != "trusted" {
+			s3 := scfg.Clone()
+			s3.ClientAuth, s3.ClientCAs = gmtls.RequireAndVerifyClientCert, pki.pool
+			c3 := ccfg.Clone()
+			c3.GetClientCertificate = nil
+			c3.Certificates = []gmtls.Certificate{pki.other.cliSig, pki.other.cliEnc}
+			out3 := handshakePair(c3, s3, nil)
+			w3 := map[string]interface{}{"config": cs.name, "connection": 3, "server_policy_now": "require-and-verify", "client_certificate_now": "untrusted", "client_error": errStr(out3.cli.err), "server_error": errStr(out3.srv.err)}
+			for side, e := range map[string]*endResult{"client": &out3.cli, "server": &out3.srv} {
+				if e.panicked != nil {
+					rep.Violation("C06/third-connection/panic/"+side+"/"+e.panicked.Func, e.panicked.Value, w3)
+				}
+			}
+			if out3.srv.completed {
+				w3["server_resumed"] = out3.srv.state.DidResume
+				rep.Violation("C06/Handshake/forbidden-combination-completes/untrusted-client-certificate-after-the-policy-was-tightened(ticket-held)", fmt.Sprintf("server completed (resumed=%v) with a client whose certificate it cannot verify", out3.srv.state.DidResume), w3)
+			}
+			if out3.cli.completed {
+				out3.cli.conn.Close()
+			}
+			if out3.srv.completed {
+				out3.srv.conn.Close()
+			}
+			rep.Count("third_connections_with_tightened_policy", 1)
+			rep.Eval(fmt.Sprintf("third-connection/tightened-policy/srv=%s/first-auth=%s/first-ccert=%s", cs.srvMode, authName(cs.auth), cs.cliCert))
 		}
 	}
 }
